@@ -61,7 +61,8 @@ def frame_pool(rng, extra_ubx=()):
             out.append((f, "NMEA"))
     for f in p["rtcm"]:
         out.append((f, "RTCM"))
-    out.extend(special_frames(rng))
+    # (frames of tens of kilobytes take part in the deterministic tour of every reader check, not in the random mixtures)
+    out.extend(x for x in special_frames(rng) if len(x[0]) <= 7000)
     return out
 
 
@@ -107,6 +108,14 @@ def special_frames(rng):
         out.append((frame(0x77, 0x01, b"\x00" + x + b"\x00\x00"), "UBX"))
         if b"\n" not in x:
             out.append((rtcm_frame(b"\x00\x00" + x), "RTCM"))
+    # text lines far longer than any NMEA sentence: '$G' + several hundred / thousand bytes without LF (whatever the NMEA parser makes of them)
+    for n in (300, 600, 1100, 9000):
+        out.append((b"$GNTXT," + bytes(0x41 + (k % 26) for k in range(n)) + b"*00\r\n", "NMEA"))
+        out.append((b"$P" + bytes(rng.choice(b"\x00\x01\xb5\x62\xd3\xff0123") for _ in range(n)) + b"\n", "NMEA"))
+    # payload lengths at the sign bit of the 16-bit length field and at its maximum
+    for n in (32767, 32768, 40000, 65535):
+        out.append((frame(0x04, 0x02, bytes(0x20 + (k % 90) for k in range(n))), "UBX"))
+    out.append((frame(0x77, 0x05, rng.randbytes(32768)), "UBX"))
     for n in (254, 255, 256, 257, 258, 511, 512, 1000, 6000):  # lengths around byte boundaries and long frames
         out.append((frame(0x77, n & 0xFF, rng.randbytes(n)), "UBX"))
         out.append((frame(0x02, 0x15, rng.randbytes(n)), "UBX"))
@@ -235,6 +244,7 @@ def obs_runs(case):
         r = rd.run_reader(data, filt=pl.get("filter", 7), quit=pl.get("quit", 1), parsing=bool(pl.get("parsing", 1)),
                           handler=bool(pl.get("handler", 1)), msgmode=mm, validate=va, pbf=pbf,
                           keep_reads=bool(pl.get("reads", 0)), labelmsm=lm, bursts=case.get("bursts", ()), pauses=case.get("pauses", ()), kind=case.get("streamkind", "min"),
+                          resume=bool(pl.get("resume", 0)),
                           poll=case["prop"] == "C07")  # C07 speaks of successive read() calls: a polling caller asks again after (None, None)
         r["cut"] = cut
         r["reads"] = 1 if pl.get("reads", 0) and case.get("streamkind") != "sock" and not case.get("pauses") else 0
